@@ -28,7 +28,10 @@ MARKER = '"><x9q a=\'1\'>&amp;<!--'
 HOSTILE = '<>"\'&%+;=#\x00\t\n\r\x7f\xa0é٣ \ud800'
 RAW_QUERIES = ['', 'number=', 'number', 'number=1&number=2', 'x=1', 'x=1&number=9789024538270', 'number=%', 'number=%zz', 'number=%ff',
                'number=%C0%AF', 'number=a+b', 'number=%26%3C%3E%22%27', 'number=%00', 'number=' + '9' * 5000, 'number=%E2%80%A8',
-               'NUMBER=9789024538270', 'number=9789024538270&', '&&number=9789024538270', 'number=%ED%A0%80', 'number==', 'number=%3Cscript%3E']
+               'NUMBER=9789024538270', 'number=9789024538270&', '&&number=9789024538270', 'number=%ED%A0%80', 'number==', 'number=%3Cscript%3E',
+               'number=1&' * 12, 'a=1&b=2&c=3&d=4&e=5&f=6&g=7&h=8&i=9&j=10&k=11&number=9789024538270', 'number=9789024538270' + '&' * 12,
+               'number=9789024538270;x=1', '&'.join('p%d=%d' % (i, i) for i in range(40)) + '&number=BE31435411161155',
+               'number=' + '%20' * 300 + '9789024538270', 'number=9789024538270&number=' + 'x' * 3000]
 AJAX_HEADERS = ['XMLHttpRequest', 'xmlhttprequest', 'XMLHTTPREQUEST']
 
 _app = {}
@@ -350,6 +353,42 @@ def work(item):
         res['extra']['first_request_race_executions'] = execs
         if capped:
             res['extra']['caps_hit'] = {'race': execs}
+        # second harness: two first requests *with* a number; scheduling points at the lines of application() and of
+        # util.get_number_modules() (one per module), one preemption: lazily built per-process state in the module loop
+        import importlib
+        qa, qb = enc('978-90-245-3827-0'), enc('BE31435411161155')
+        reset()
+        expab = [request(qa, 'XMLHttpRequest', a0)['body'], request(qb, 'XMLHttpRequest', a0)['body']]
+
+        def mk2():
+            a = holder['app']
+            return [lambda: request(qa, 'XMLHttpRequest', a), lambda: request(qb, 'XMLHttpRequest', a)]
+
+        def check2(results, taken, sched):
+            for i, q in enumerate((qa, qb)):
+                r = results.get(i)
+                if not isinstance(r, dict) or r.get('exc') or r.get('body') != expab[i]:
+                    res.viol(ID, 'race-on-first-request', 'online_check', 'application',
+                             {'query': q, 'ajax': 'XMLHttpRequest', 'history': 'race', 'schedule': taken, 'clause': 'race-on-first-request'},
+                             'two first requests with a number: under schedule %r request %d got %r' % (
+                                 taken[:30], i, (r or {}).get('exc') if isinstance(r, dict) and r.get('exc') else 'a different format list'),
+                             'same response as alone', excinfo='race-modules', devclass='first-request', rank=[sum(1 for c in taken if c), len(taken), ''])
+            return 'ok'
+        u = importlib.import_module('stdnum.util')
+        watched2 = {holder['app'].application.__code__, u.get_number_modules.__code__}
+        for nm, fobj in vars(holder['app']).items():
+            if callable(fobj) and hasattr(fobj, '__code__') and getattr(fobj, '__module__', '') == 'stdnum_wsgi_under_test' and nm not in ('format', 'info', 'get_conversions'):
+                watched2.add(fobj.__code__)
+        execs2, outcomes2, capped2 = e4.explore_schedules(mk2, watched2, 1, reset, check2, max_execs=60 if quick else 3000,
+                                                          watch_module_code=False, horizon=60000, earliest_first=True,
+                                                          stride=25 if quick else 1)
+        res['extra']['module_loop_race_stride'] = 25 if quick else 1
+        res['extra']['module_loop_race_anomalies'] = {k: v for k, v in outcomes2.items() if k.startswith('<')}
+        n += execs2
+        nt += execs2
+        res['extra']['module_loop_race_executions'] = execs2
+        if capped2:
+            res['extra'].setdefault('caps_hit', {})['race-modules'] = execs2
     res['states'] = n
     res['transitions'] = n
     res['evaluations'] = n
